@@ -48,6 +48,16 @@ def run(run, replay=None):
                 run.sample({'defect': d, 'ids': ids, 'file_head': data[:120].decode('latin-1'),
                             'impl_end': cases[-1]['end'], 'impl_line': cases[-1]['line']})
             n += 1
+    # every file of MC_Reader's explored space (all token sequences) goes to the real reader too
+    from harness import gen
+    tokfiles = gen.behaviours('MC_Reader', {'MaxTok': 3 if quick else 4, 'RawLen': 0}, invariant='EmitFiles', run=run,
+                              cfg_extra='CONSTANT Tables <- NoTables\n', timeout=1200)
+    for b in tokfiles:
+        data = bytes(b['f'])
+        cases.append(rdriver.case(n, 'exact', data, cat))
+        run.count(('tokens', data), nontrivial=data.count(b'#') >= 2)
+        n += 1
+    run.notes['token_files_from_MC_Reader'] = len(tokfiles)
     # the specification's own example files
     import glob
     import os
@@ -58,8 +68,9 @@ def run(run, replay=None):
         n += 1
     run.sample({'ids': paths[-1], 'file_head': bytes(cases[len(paths)]['file'][:200]).decode('latin-1')})
     can = _rcommon.reader_canaries(cases, rng)
+    # files whose declared length exceeds the data present are C07's subject (known finding F9), not C03's
     v = run.judge('Trace_Reader', cases + can, cat.tables(), canary_ids=[c['id'] for c in can],
-                  describe=describe)
+                  describe=describe, out_of_scope_devs=('D_ShortReadAccepted',))
     acc = sum(1 for c in cases if v[c['id']] [2] == 'accepted')
     rej = sum(1 for c in cases if v[c['id']][2] == 'rejected')
     run.notes['spec_accepted_files'] = acc
